@@ -4,6 +4,10 @@
 -/
 namespace MayVerif.Chan
 
+/-- actors and blockers are numbered (`notation`, not `abbrev`: `omega` must see `Nat`) -/
+scoped notation "Tid" => Nat
+scoped notation "Bid" => Nat
+
 @[grind] def upd {α : Type} (f : Nat → α) (t : Nat) (v : α) : Nat → α := fun u => if u = t then v else f u
 
 /-- a message: the payload word the trace shows, and (ghost) the actor whose `send` pushed it -/
